@@ -1121,6 +1121,15 @@ def _from_iter(ex, args, f):
         out.append(x.fields[0])
         if len(out) > 4096:
             raise Unsupported("collect: too many items")
+    if re.search(r"::collect::<(?:std::result::)?Result<", f) or re.search(r"^<(?:std::result::)?Result<.* as (?:std::iter::)?FromIterator", f.strip()):
+        # collecting Results: the first Err, else Ok(the values)
+        vals = []
+        for r in out:
+            r = deref_all(ex, r)
+            if r.variant == "Err":
+                return r
+            vals.append(r.fields[0])
+        return ok(VecV(vals))
     return VecV(out)
 
 
@@ -1158,6 +1167,8 @@ def _bits_retain(ex, args, f):
 
 
 _FLAG_MASKS = {}
+_FLAG_VALUES = {}
+_FLAG_WIDTH = {}
 
 
 def flags_mask(name):
@@ -1179,6 +1190,8 @@ def flags_mask(name):
                 for v in vals.values():
                     mask |= v
                 _FLAG_MASKS[m.group(1)] = mask
+                _FLAG_VALUES[m.group(1)] = vals
+                _FLAG_WIDTH[m.group(1)] = re.search(r"pub struct %s: (u\d+)" % m.group(1), txt).group(1)
     if name not in _FLAG_MASKS:
         raise Unsupported("no bitflags! definition found for %s" % name)
     return _FLAG_MASKS[name]
@@ -1678,7 +1691,8 @@ def _read_to_end4(ex, args, f, _prev=I["<_ as Read>::read_to_end"]):
         total = 0
         for _ in range(256):
             cell = Cell(Arr([Int(0, "u8") for _ in range(32)]))
-            r = ex.call_fn(fn, [args[0], Ref(cell)])
+            from intrinsics2 import container_ref
+            r = ex.call_fn(fn, [container_ref(ex, args[0])[0], Ref(cell)])
             if r.variant != "Ok":
                 return r
             n = pick(ex, r.fields[0], 32)
@@ -1748,3 +1762,300 @@ def _str_replace(ex, args, f):
             out.append(s[i])
             i += 1
     return Str(out, owned=True)
+
+
+@intr("<_ as Default>::default")
+def _default_generic(ex, args, f, _prev=I["<_ as Default>::default"]):
+    m = re.match(r"^<(.*) as (?:std::default::)?Default>::default$", f.strip())
+    t = m.group(1) if m else ""
+    if t.startswith("Option<"):
+        return NONE
+    if t.startswith("Vec<"):
+        return VecV([])
+    if t == "String" or t.startswith("Cow<"):
+        return Str([], owned=True)
+    if t.startswith("BTreeMap<") or t.startswith("BTreeSet<"):
+        return MapV()
+    if t.startswith("HashSet<") or t.startswith("HashMap<"):
+        return HashV()
+    if t in WIDTH:
+        return Int(0, t)
+    if t == "bool":
+        return Bool(False)
+    return _prev(ex, args, f)
+
+
+# ---- HashSet / HashMap: membership as for the ordered maps; ITERATION ORDER IS ARBITRARY (RandomState): the solver picks the permutation ----
+class HashV(MapV):
+    pass
+
+
+@intr("HashSet::new", "HashSet::<T>::new", "std::collections::HashSet::new", "HashMap::new")
+def _hashset_new(ex, args, f):
+    return HashV()
+
+
+@intr("HashSet::insert", "HashSet::<T, S>::insert", "HashSet::<T>::insert")
+def _hashset_insert(ex, args, f):
+    return _btreeset_insert(ex, args, f)
+
+
+# ---- iteration over the collection models ------------------------------------------------------------------------------------------------
+def _bytes_lt(ex, a, b):
+    """lexicographic a < b on byte strings (String's Ord), decided by the solver position by position"""
+    a = as_str(ex, a).bytes()
+    b = as_str(ex, b).bytes()
+    for x, y in zip(a, b):
+        if ex.decide(x != y):
+            return bool(ex.decide(z3.ULT(x, y)))
+    return len(a) < len(b)
+
+
+def _ordered_indices(ex, m):
+    """BTreeMap/BTreeSet: ascending key order"""
+    idx = []
+    for i in range(len(m.keys)):
+        pos = len(idx)
+        for j, k in enumerate(idx):
+            if _bytes_lt(ex, m.keys[i], m.keys[k]):
+                pos = j
+                break
+        idx.insert(pos, i)
+    return idx
+
+
+def _permuted_indices(ex, m):
+    """HashSet/HashMap: the order RandomState happens to give - any permutation, picked by the solver (one decision per position)"""
+    m.perm_id = getattr(m, "perm_id", None) or ("hs%d" % id(m))
+    ex._perm_n = getattr(ex, "_perm_n", 0) + 1
+    rest = list(range(len(m.keys)))
+    out = []
+    while rest:
+        pick_i = 0
+        for c in range(len(rest) - 1):
+            if ex.decide(z3.Bool("hash_order_%d_%d_%d" % (ex._perm_n, len(out), c))):
+                pick_i = c
+                break
+            pick_i = c + 1
+        out.append(rest.pop(pick_i))
+    return out
+
+
+def _map_order(ex, m):
+    return _permuted_indices(ex, m) if isinstance(m, HashV) else _ordered_indices(ex, m)
+
+
+@intr("BTreeMap::iter", "BTreeMap::<K, V>::iter", "HashMap::iter")
+def _map_iter(ex, args, f):
+    m = deref_all(ex, args[0])
+    return ValIter([Tup([Ref(Cell(m.keys[i])), Ref(Cell(m.vals[i]))]) for i in _map_order(ex, m)])
+
+
+@intr("BTreeSet::iter", "BTreeSet::<T>::iter", "HashSet::iter", "HashSet::<T, S>::iter")
+def _set_iter(ex, args, f):
+    m = deref_all(ex, args[0])
+    return ValIter([Ref(Cell(m.keys[i])) for i in _map_order(ex, m)])
+
+
+@intr("<_ as IntoIterator>::into_iter")
+def _into_iter_maps(ex, args, f, _prev=I["<_ as IntoIterator>::into_iter"]):
+    v = deref_all(ex, args[0])
+    if isinstance(v, (EnumIter, ZipIter, MultiZip, ValIter, MapIter)) or type(v).__name__ in ("MapAdapter", "FlatMapIter", "FilterIter"):
+        return v                       # IntoIterator for an iterator is the identity
+    if isinstance(v, MapV):
+        by_ref = f.strip().startswith("<&")
+        is_set = "Set<" in f
+        order = _map_order(ex, v)
+        if is_set:
+            return ValIter([(Ref(Cell(v.keys[i])) if by_ref else v.keys[i]) for i in order])
+        return ValIter([Tup([Ref(Cell(v.keys[i])) if by_ref else v.keys[i], Ref(Cell(v.vals[i])) if by_ref else v.vals[i]]) for i in order])
+    return _prev(ex, args, f)
+
+
+@intr("BTreeMap::len", "BTreeSet::len", "HashSet::len", "HashMap::len", "BTreeMap::<K, V>::len")
+def _map_len(ex, args, f):
+    return usize(len(deref_all(ex, args[0]).keys))
+
+
+@intr("BTreeMap::is_empty", "BTreeSet::is_empty", "HashSet::is_empty", "HashMap::is_empty")
+def _map_is_empty(ex, args, f):
+    return Bool(len(deref_all(ex, args[0]).keys) == 0)
+
+
+@intr("<_ as Iterator>::position")
+def _position(ex, args, f):
+    it = deref_all(ex, args[0])
+    clo = deref_all(ex, args[1])
+    i = 0
+    while True:
+        nx = _iter_next(ex, it, f)
+        if nx.variant == "None":
+            return NONE
+        hit = ex.call_closure(clo, [nx.fields[0]])
+        if ex.decide(hit.e):
+            return some(usize(i))
+        i += 1
+
+
+@intr("<_ as Into>::into")
+def _into_generic(ex, args, f, _prev=I["<_ as Into>::into"]):
+    """<A as Into<B>>::into: integer widening, or the crate's `impl From<A> for B`, else the previous model (identity / Cow)"""
+    m = re.match(r"^<(.*) as (?:std::convert::)?Into<(.*)>>::into$", f.strip())
+    if m:
+        src, dst = m.group(1).strip(), m.group(2).strip()
+        v = deref_all(ex, args[0])
+        if dst in WIDTH and isinstance(v, Int) and src in WIDTH:
+            w0, w1 = v.e.size(), WIDTH[dst]
+            if w1 > w0:
+                return Int(z3.SignExt(w1 - w0, v.e) if v.signed else z3.ZeroExt(w1 - w0, v.e), dst)
+            if w1 == w0:
+                return Int(v.e, dst)
+        from symex import base_name
+        fn = None
+        for cand in ex.by_method.get("from", []):
+            from symex import impl_info
+            info = impl_info(cand.name)
+            if info and info[1] == base_name(dst) and (info[0] or "") == "From" and cand.params and base_name(cand.params[0][1]) == base_name(src):
+                fn = cand if fn is None else fn
+        if fn is not None:
+            return ex.call_fn(fn, [args[0]])
+    return _prev(ex, args, f)
+
+
+@intr("<_ as Extend>::extend")
+def _extend(ex, args, f):
+    """Vec::extend(iterable): items by value (for `Extend<&u8>` the bytes are copied)"""
+    v = deref_all(ex, args[0])
+    src = deref_all(ex, args[1])
+    if isinstance(src, (Arr, VecV, Str)):
+        v.items += list(items_of(ex, src))
+        return UNIT
+    it = I["<_ as IntoIterator>::into_iter"](ex, [args[1]], f)
+    while True:
+        nx = _iter_next(ex, it, f)
+        if nx.variant == "None":
+            return UNIT
+        x = nx.fields[0]
+        v.items.append(deref_all(ex, x) if "Extend<&" in f else x)
+        if len(v.items) > ITEM_BUDGET_REF[0]:
+            raise PathEnd("alloc", "extend: too many items")
+
+
+from intrinsics2 import ITEM_BUDGET as ITEM_BUDGET_REF  # noqa: E402
+
+
+def _write_all_default(ex, args, f, _prev):
+    """std's default Write::write_all over a crate type that implements Write::write itself"""
+    w = deref_all(ex, args[0])
+    if isinstance(w, Adt):
+        fn = ex.find_impl("write", "Write", w.ty)
+        if fn is None:
+            raise Unsupported("write_all on %s without a Write impl in the crate" % w.ty)
+        data = as_bytes(ex, args[1])
+        pos = 0
+        for _ in range(4096):
+            if pos >= len(data):
+                return ok()
+            from intrinsics2 import container_ref
+            r = ex.call_fn(fn, [container_ref(ex, args[0])[0], Str(data[pos:])])
+            if r.variant != "Ok":
+                er = r.fields[0]
+                if getattr(er, "tag", "") == "io::Error(Interrupted)":
+                    continue
+                return r
+            n = pick(ex, r.fields[0], len(data) - pos)
+            if n == 0:
+                return err(Opaque("io::Error(WriteZero)"))
+            pos += n
+        raise Unsupported("write_all: more than 4096 write calls")
+    return _prev(ex, args, f)
+
+
+for _k in ("<_ as Write>::write_all", "<W as std::io::Write>::write_all", "<impl std::io::Write as std::io::Write>::write_all", "<impl io::Write as std::io::Write>::write_all"):
+    I[_k] = (lambda prev: (lambda ex, args, f: _write_all_default(ex, args, f, prev)))(I[_k])
+
+
+def _flags_const_hook(ex, name):
+    """`constants::DependencyFlags::RPMLIB` and friends: associated constants generated by bitflags!"""
+    m = re.fullmatch(r"(?:\w+::)*(\w+)::([A-Z][A-Z0-9_]*)", name.strip())
+    if not m:
+        return None
+    try:
+        flags_mask(m.group(1))
+    except Unsupported:
+        return None
+    vals = _FLAG_VALUES.get(m.group(1))
+    if vals is None or m.group(2) not in vals:
+        return None
+    return Adt(m.group(1), "bits", [Int(vals[m.group(2)], _FLAG_WIDTH[m.group(1)])])
+
+
+from symex import NAMED_CONST_HOOKS  # noqa: E402
+NAMED_CONST_HOOKS.append(_flags_const_hook)
+
+
+def _flags_binop(op):
+    def g(ex, args, f, _prev):
+        a = deref_all(ex, args[0])
+        b = deref_all(ex, args[1])
+        if isinstance(a, Adt) and a.variant == "bits" and isinstance(b, Adt) and b.variant == "bits":
+            return Adt(a.ty, "bits", [Int(op(a.fields[0].e, b.fields[0].e), a.fields[0].ty)])
+        return _prev(ex, args, f)
+    return g
+
+
+for _tr, _m, _op in (("BitXor", "bitxor", lambda x, y: x ^ y), ("BitOr", "bitor", lambda x, y: x | y), ("BitAnd", "bitand", lambda x, y: x & y)):
+    _key = "<_ as %s>::%s" % (_tr, _m)
+    I[_key] = (lambda g, prev: (lambda ex, args, f: g(ex, args, f, prev)))(_flags_binop(_op), I[_key])
+
+
+def _flags_bits(ex, args, f):
+    return deref_all(ex, args[0]).fields[0]
+
+
+for _fl in ("DependencyFlags", "FileFlags", "ScriptletFlags", "FileVerifyFlags"):
+    for _pre in ("constants::_::<impl constants::%s>::", "constants::_::<impl %s>::"):
+        I.setdefault((_pre % _fl) + "bits", _flags_bits)
+
+
+@intr("Option::unwrap_or_else")
+def _opt_unwrap_or_else(ex, args, f):
+    o = deref_all(ex, args[0])
+    if o.variant == "Some":
+        return o.fields[0]
+    return ex.call_closure(deref_all(ex, args[1]), [])
+
+
+@intr("Option::unwrap_or_default", "Result::unwrap_or_default")
+def _opt_unwrap_or_default(ex, args, f):
+    o = deref_all(ex, args[0])
+    if o.variant in ("Some", "Ok"):
+        return o.fields[0]
+    m = re.match(r"^(?:Option|Result)::<([^,>]*)", f.strip())
+    return I["<_ as Default>::default"](ex, [], "<%s as Default>::default" % (m.group(1) if m else ""))
+
+
+def _ord_terms(ex, a, b):
+    """(a < b, a == b) as z3 terms for integers and for derive(PartialOrd) structs made of integers (lexicographic by field)"""
+    a, b = deref_all(ex, a), deref_all(ex, b)
+    if isinstance(a, Int) and isinstance(b, Int):
+        return ((a.e < b.e) if a.signed else z3.ULT(a.e, b.e)), a.e == b.e
+    if isinstance(a, Adt) and isinstance(b, Adt) and a.variant == b.variant and len(a.fields) == len(b.fields) and a.fields:
+        lt, eq = z3.BoolVal(False), z3.BoolVal(True)
+        for x, y in zip(a.fields, b.fields):
+            l, e_ = _ord_terms(ex, x, y)
+            lt = z3.Or(lt, z3.And(eq, l))
+            eq = z3.And(eq, e_)
+        return lt, eq
+    raise Unsupported("ordering of %r and %r" % (a, b))
+
+
+def _mk_ord(which):
+    def g(ex, args, f):
+        lt, eq = _ord_terms(ex, args[0], args[1])
+        return Bool({"lt": lt, "le": z3.Or(lt, eq), "gt": z3.Not(z3.Or(lt, eq)), "ge": z3.Not(lt)}[which])
+    return g
+
+
+for _w in ("lt", "le", "gt", "ge"):
+    I.setdefault("<_ as PartialOrd>::" + _w, _mk_ord(_w))
